@@ -327,6 +327,17 @@ def build_def_op(op):
     if op.get("mask") is None:
         return cls(op["m"])
     m = np.array(op["mask"], dtype=bool).reshape(3, 3)
+    how = int(sum(i * int(b) for i, b in enumerate(op["mask"]))) % 5
+    if how == 3:
+        # the mask is a public attribute: set on an existing operation (built with the default mask) …
+        o = cls(op["m"])
+        o.mask = m.copy()
+        return o
+    if how == 4:
+        # … or edited in place; what counts is the mask the operation has when it draws
+        o = cls(op["m"], mask=np.ones((3, 3), dtype=bool))
+        o.mask[...] = m
+        return o
     # a mask is a mask: as booleans, as the 0/1 integers ASE writes its masks with, or as nested lists
     kind = int(sum(op["mask"])) % 3
     if kind == 1:
